@@ -20,7 +20,7 @@ import time
 from dataclasses import dataclass, field
 from typing import Any, Callable, Dict, List, Optional, Sequence, Tuple
 
-from common import Ctx, Exploration, Finding, known_findings
+from common import Ctx, Exploration, Finding, known_findings, run_driver
 from core import diff_program, run_impl, run_model
 from pylib import dumps
 
@@ -39,6 +39,7 @@ class CoreProp:
     nontrivial: Optional[Callable[[Program, Any], bool]] = None
     rule: str = ""
     hashseeds: Sequence[str] = ("0",)
+    layer0: Sequence[str] = ()      # layer-0 functions of the model tied to their Python twins in this check (layer0.py)
 
 
 def _ops_slice(prog: Program, keep: Sequence[int]) -> Program:
@@ -122,6 +123,13 @@ def explore_core(ctx: Ctx, prop: CoreProp) -> Exploration:
     items = prop.programs(rng, ctx.tier)
     stats = {"programs": 0, "ops": 0, "disagreements": 0, "oracle_failures": 0, "known_seen": {},
              "errors_hit": {}, "kinds": {}, "fuel_skipped": 0}
+    if prop.layer0:
+        import layer0
+        bad, counts = layer0.tie(random.Random(ctx.seed * 31 + 5), ctx.tier, prop.layer0)
+        stats["layer0_cases"] = counts
+        for b in bad[:5]:
+            exp.findings.append(Finding("correspondence", f"layer-0 function `{b['function']}` of the model disagrees with its Python twin",
+                                        {"layer0": b, "engine": "core"}))
     nontrivial = set()
     samples: List[Any] = []
 
@@ -236,6 +244,8 @@ def explore_core(ctx: Ctx, prop: CoreProp) -> Exploration:
                          "fuel_skipped": stats["fuel_skipped"]},
         "samples": samples or [{"note": "corpus only"}],
     }
+    if stats.get("layer0_cases"):
+        exp.coverage["layer0_tie_cases"] = stats["layer0_cases"]
     return exp
 
 
@@ -243,6 +253,15 @@ def replay_core(prop: CoreProp, payload: Dict[str, Any]) -> int:
     """re-execute a stored program on the current tree and the model; print the comparison"""
     prog = payload.get("program")
     meta = payload.get("meta", {})
+    if prog is None and payload.get("layer0"):
+        import layer0
+        c = [payload["layer0"]["function"], payload["layer0"]["args"]]
+        m = layer0._norm_model(c[0], json.loads(run_driver("driver", [dumps(c)], args=["prim"])[0]))
+        t = layer0.run_twin([c])[0]
+        print("case  :", dumps(c)[:2000])
+        print("model :", dumps(m)[:2000])
+        print("python:", dumps(t)[:2000])
+        return 1 if dumps(m) != dumps(t) else 0
     if prog is None:
         print("replay file has no program (theorem / audit failure): rebuild with ./check", prop.pid)
         print(json.dumps({k: payload.get(k) for k in ("kind", "what", "modules", "all_broken")}, indent=1)[:3000])
